@@ -290,6 +290,37 @@ func rulePlumbing(c *Ctx, rule, class string) {
 		c.check(filled, rule, g.String()+": filled from the caller's options", where, "every supplied option is applied to "+g.String(), "the constructor of "+g.Type+" does not apply the options it is given to "+g.String()+" (no apply call on each element of the option list with that field's address, no copy from its options struct): "+cl.effect)
 	}
 	c.floor(rule, len(holders), 3, "configuration holders of tunnel options")
+	// 6. an option implemented as a function type applies itself: apply(opts) calls the function with opts, unconditionally
+	nApply := 0
+	optT := recvNamed(sr)
+	for _, f := range w.Funcs {
+		if f.Parent() != nil || f.Signature.Recv() == nil || len(f.Params) != 2 || isGenericTemplate(f) || f.Synthetic != "" {
+			continue
+		}
+		if _, isFn := f.Params[0].Type().Underlying().(*types.Signature); !isFn {
+			continue
+		}
+		pt, isP := types.Unalias(f.Params[1].Type()).(*types.Pointer)
+		if !isP || optT == nil {
+			continue
+		}
+		if n := namedOf(pt.Elem()); n == nil || n.Obj() != optT.Obj() {
+			continue
+		}
+		nApply++
+		okCall := false
+		allInstrs(f, func(in ssa.Instruction) {
+			call, isC := in.(*ssa.Call)
+			if !isC || call.Call.IsInvoke() || len(call.Call.Args) != 1 {
+				return
+			}
+			if origin(call.Call.Value) == ssa.Value(f.Params[0]) && origin(call.Call.Args[0]) == ssa.Value(f.Params[1]) && len(factsAt(call)) == 0 {
+				okCall = true
+			}
+		})
+		c.check(okCall, rule, w.Short(f)+": a function option applies itself", posOf(w, f), "t(opts)", "the apply method of the function-typed option does not (unconditionally) call the function with the options it is given: WithDisableFlowControl has no effect")
+	}
+	c.floor(rule, nApply, 1, "function-typed option implementations")
 }
 
 func sortFieldRefs(fs []FieldRef) {
